@@ -178,6 +178,21 @@ def replay (j : Json) : R Verdict := do
     if (fieldD twin "sameDelivered").getBool?.toOption == some true
         && (fieldD twin "retA").compress != (fieldD twin "retB").compress then
       pf := ("C09", s!"two runs with the same inputs in which the same results were delivered in the same order returned different reports: {(fieldD twin "retA").compress} when {(fieldD twin "withheld").compress} had finished but were not yet delivered, {(fieldD twin "retB").compress} when they had not finished") :: pf
+  -- C02: an evaluation that had finished with a value at least one full controller round before the run returned, and
+  -- whose result the controller never took, is a lost result when it beats what the run reported
+  for pk in ((fieldD stats "parked").getArr?.toOption.getD #[]) do
+    match pk.getArr?.toOption.map (·.toList) with
+    | some [sd, rd, xj] =>
+      match xj.getInt?.toOption with
+      | some x =>
+        let lastRet := (rounds.toList.reverse.findSome? (fun r => match (fieldD (fieldD r "obs") "ret") with | .null => none | v => some v)).getD Json.null
+        let worse : Bool := match (fieldD (fieldD lastRet "ok") "best").getInt?.toOption with
+          | some b => decide (x < b)
+          | none => lastRet.compress == "\"noIndividuals\""
+        if worse then
+          pf := ("C02", s!"the evaluation with seed {sd.compress} finished in round {rd.compress} with a value (order code {x}) better than the reported best, the controller ran on for more rounds and never took it: the run returned {lastRet.compress}") :: pf
+      | none => pure ()
+    | _ => pure ()
   -- C09: a run that ended by itself was repeated with the same completions in the same order, one per round
   let paced := fieldD j "paced"
   if !paced.isNull then
